@@ -15,6 +15,23 @@ from h5py import File
 from ..util.ttn_exceptions import positivity_check, non_negativity_check
 from ..util import fast_exp_action
 
+# Verification hook (add-only): an observer of every local propagator call.
+# Inactive unless the environment variable PYTREENET_VERIF is set to "1"
+# *and* an observer has been registered.
+_VERIF_OBSERVER = None
+
+def _verif_register_observer(observer):
+    """
+    Registers (or with None removes) an observer called at the top of
+    `time_evolve`. Only has an effect if PYTREENET_VERIF=1.
+    """
+    global _VERIF_OBSERVER
+    import os
+    if os.environ.get("PYTREENET_VERIF") == "1":
+        _VERIF_OBSERVER = observer
+    else:
+        _VERIF_OBSERVER = None
+
 class TimeEvolution:
     """
     An abstract class that can be used for various time-evolution algorithms.
@@ -500,6 +517,8 @@ def time_evolve(psi: np.ndarray, hamiltonian: np.ndarray,
     Returns:
         np.ndarray: The time evolved state
     """
+    if _VERIF_OBSERVER is not None:
+        _VERIF_OBSERVER(psi, hamiltonian, time_difference, forward, mode)
     sign = -2 * forward + 1  # forward=True -> -1; forward=False -> +1
     rhs_matrix = sign * 1.0j * hamiltonian
     if mode.is_scipy():
